@@ -15,6 +15,7 @@ EXPLANATION = ("A1 start(): on the path where one of the caller's controls has t
 TRUSTED = ['the server returns cookies as RFC 2696 says', 'C19 (paging control codec)', 'C10 (stream state machine)']
 UNDECIDED = ['exactly-once delivery / number of pages / termination over a run (runtime quantities)']
 ASSUMPTIONS = ['a generic control stands for every element of the control lists']
+SHARED = [('C02', ('M1.', 'S.request-shape'), 'A4.options-reach-the-adapter')]
 
 PR = "<ldap3::adapters::PagedResults<S, A> as ldap3::adapters::Adapter<'a, S, A>>::"
 OID = '1.2.840.113556.1.4.319'
